@@ -228,8 +228,8 @@ def cases(ctx):
             ut = "Optional[bool]" if name in ("factor_of", "has_factor") else "Union[bool, None, str]"
             if name in ("in_", "not_in"):
                 ut = "Optional[str]"   # the argument list holds 1.5: a symbolic bool == 1.5 goes through the int/real mix that stalls z3
-            doc = ("fl", [("u1", ut)], [f"BU({L}, u1)"], "[u1, 1.5, -0.0, 2.0, 6.0, 1e300, 's', '%d', '%', '%s', inf, -inf]") if kind == "value" else \
-                  ("fm", [("u1", U)], [f"BU({L}, u1)"], "{1.5: u1, 2.0: 0, -0.0: 1, 'a': 2, 6.0: 3, '%d': 4, '%': 5, inf: 6, -inf: 7}")
+            doc = ("fl", [("u1", ut)], [f"BU({L}, u1)"], "[u1, 1.5, -0.0, 2.0, 6.0, 1e300, 's', '%d', '%', '%s', float('inf'), float('-inf')]") if kind == "value" else \
+                  ("fm", [("u1", U)], [f"BU({L}, u1)"], "{1.5: u1, 2.0: 0, -0.0: 1, 'a': 2, 6.0: 3, '%d': 4, '%': 5, float('inf'): 6, float('-inf'): 7}")
             out.append(one_case(kind, None, name, ("conc", [], [], args, {}), doc))
     # `%` with a string on the left is string formatting: format-like string items (has_factor) / a format-like string argument
     # (factor_of) against arguments / items of every JSON-like kind - mapping-key directives look the key up in a mapping
